@@ -197,11 +197,30 @@ def _call(f, v):
     if r[0] == "ok":
         return "1"
     return _cell(r)
+def _call_kw(f, v):
+    r = attempt(lambda: f(k=v))
+    if r[0] == "ok":
+        return "1"
+    return _cell(r)
+def _call_star(f, v):
+    # the value is one of several extra positional arguments (the others are None, which is in T only if the row for None says so)
+    r = attempt(lambda: f(0, v))
+    if r[0] == "ok":
+        return "1"
+    return _cell(r)
+def _default(mk, v):
+    # the annotated parameter's default value is checked when the def statement is executed
+    r = attempt(lambda: mk(v))
+    if r[0] == "ok":
+        return "1"
+    return _cell(r)
 def rows(tag):
     for i in range(len(TYPES)):
         t = TYPES[i]
         emit("row", tag, i, "".join([_isinst(t, v) for v in VALS]), "".join([_host(t, v) for v in VALS]), "".join([_call(PARAM[i], v) for v in VALS]),
-             "".join([_call(RET[i], v) for v in VALS]), "".join([_call(LOCAL[i], v) for v in VALS]))
+             "".join([_call(RET[i], v) for v in VALS]), "".join([_call(LOCAL[i], v) for v in VALS]),
+             "".join([_call_star(STAR[i], v) for v in VALS]), "".join([_call_kw(KWS[i], v) for v in VALS]), "".join([_call_kw(KWONLY[i], v) for v in VALS]),
+             "".join([_default(DEFAULT[i], v) for v in VALS]))
 """
 
 
@@ -213,11 +232,19 @@ def make_sources(types, values):
         lib += "def _p%d(x: %s):\n    return 0\n" % (i, t)
         lib += "def _r%d(x) -> %s:\n    return x\n" % (i, t)
         lib += "def _l%d(x):\n    y: %s = x\n    return 0\n" % (i, t)
+        lib += "def _s%d(first, *rest: %s):\n    return 0\n" % (i, t)
+        lib += "def _k%d(**kw: %s):\n    return 0\n" % (i, t)
+        lib += "def _ko%d(*, k: %s):\n    return 0\n" % (i, t)
+        lib += "def _d%d(v):\n    def inner(x: %s = v):\n        return 0\n    return inner\n" % (i, t)
     lib += "PARAM = [%s]\n" % ", ".join("_p%d" % i for i in range(len(types)))
     lib += "RET = [%s]\n" % ", ".join("_r%d" % i for i in range(len(types)))
     lib += "LOCAL = [%s]\n" % ", ".join("_l%d" % i for i in range(len(types)))
+    lib += "STAR = [%s]\n" % ", ".join("_s%d" % i for i in range(len(types)))
+    lib += "KWS = [%s]\n" % ", ".join("_k%d" % i for i in range(len(types)))
+    lib += "KWONLY = [%s]\n" % ", ".join("_ko%d" % i for i in range(len(types)))
+    lib += "DEFAULT = [%s]\n" % ", ".join("_d%d" % i for i in range(len(types)))
     plain = lib + CHECKER + "rows(\"plain\")\n"
-    importer = 'load("lib.star", "TYPES", "VALS", "PARAM", "RET", "LOCAL")\n' + CHECKER + "rows(\"frozen\")\n"
+    importer = 'load("lib.star", "TYPES", "VALS", "PARAM", "RET", "LOCAL", "STAR", "KWS", "KWONLY", "DEFAULT")\n' + CHECKER + "rows(\"frozen\")\n"
     return plain, lib, importer
 
 
@@ -227,7 +254,7 @@ def run(tier):
     rng = random.Random("%d/c16" % s)
     types = build_types(tier, rng)
     values = build_values()
-    log("[C16] %d type expressions x %d values x 5 paths x {unfrozen, frozen}" % (len(types), len(values)))
+    log("[C16] %d type expressions x %d values x 9 paths x {unfrozen, frozen}" % (len(types), len(values)))
     # split types into chunks so that modules stay small
     per = 60
     cases, chunks = [], {}
@@ -243,7 +270,8 @@ def run(tier):
     cases.append({"id": "doc3", "cfg": {"dialect": "internal"}, "units": [{"file": "d.star", "src": "def f(x: tuple[int, bool, str]):\n    return x\nemit(attempt(lambda: f((1, True, \"a\"))))\n"}]})
     flavors = ["dbg"] if tier == "quick" else ["dbg", "rel"]
     st = {"cells": 0, "oracle_decided": 0, "oracle_open": 0, "members": 0, "non_members": 0}
-    PATHS = ["isinstance", "host TypeCompiled::matches", "parameter annotation", "return annotation", "annotated local assignment"]
+    PATHS = ["isinstance", "host TypeCompiled::matches", "parameter annotation", "return annotation", "annotated local assignment",
+             "*args annotation (one extra argument)", "**kwargs annotation (one named argument)", "keyword-only parameter annotation", "annotated parameter default"]
     for flavor in flavors:
         svh = os.path.join(common.build(flavor), "svh")
         batch = common.run_cases(svh, "run", cases, "c16_" + flavor, shards=NCPU, timeout=3000)
@@ -268,7 +296,7 @@ def run(tier):
                     continue
                 for e in evs:
                     if e[0] == "e" and e[1] == "srow":
-                        table[(variant, int(e[3][1:]))] = [x[1:] for x in e[4:9]]
+                        table[(variant, int(e[3][1:]))] = [x[1:] for x in e[4:13]]
                     if e[0] == "panic":
                         rep.violation("c16:panic:" + e[1][:80], "[%s] %s panic: %s" % (flavor, cid, e[1]), {"flavor": flavor, "case": cid})
             for i, (texpr, tast) in enumerate(chunk):
@@ -310,7 +338,7 @@ def run(tier):
     rep.coverage = {
         "evaluations": st["cells"],
         "distinct_nontrivial": len(types) * len(values),
-        "rule": "evaluation = one (type expression, value, check path, frozen?) answer; distinct_nontrivial = (type, value) pairs, each answered on 10 paths and compared with each other and - where the documentation decides - with the independent oracle",
+        "rule": "evaluation = one (type expression, value, check path, frozen?) answer; distinct_nontrivial = (type, value) pairs, each answered on 18 paths and compared with each other and - where the documentation decides - with the independent oracle",
         "samples": [{"type": t, "ast": a} for t, a in types[::max(1, len(types) // 6)]][:6] + [{"value": v} for v, _ in values[::12]],
         "type_expressions": len(types),
         "values": len(values),
